@@ -538,3 +538,166 @@ Proof.
   intro W. rewrite layout_msgs. destruct (final_routes_props inp xs W) as [N [T _]].
   apply ttb_b_of_ys; rewrite ysl_shift; [apply nonempty_shift|apply ttb_shift]; assumption.
 Qed.
+
+(* ------------------------------------------------------------------ per-message invariants *)
+Definition hdp (r : list pt) : pt := hd (0, 0) r.
+Definition lastp (r : list pt) : pt := last r (0, 0).
+
+Definition X1 (inp : input) (xs : list Q) (m : msg) : Q := acx inp xs (m_src m) + src_shift inp m.
+Definition X2 (inp : input) (xs : list Q) (m : msg) : Q := acx inp xs (m_dst m) + dst_shift inp m.
+
+(* first / last x are x1 / x2, at least two points, and one horizontal segment between different actors *)
+Definition rinv (x1 x2 : Q) (m : msg) (r : list pt) : Prop :=
+  (2 <= length r)%nat /\ fst (hdp r) == x1 /\ fst (lastp r) == x2
+  /\ (same_actor m = false -> exists y, ys r = [y; y]).
+
+Lemma Forall2_map_r {A B C} (R : A -> B -> Prop) (R' : A -> C -> Prop) (g : B -> C) l l' :
+  Forall2 R l l' -> (forall a b, In a l -> R a b -> R' a (g b)) -> Forall2 R' l (map g l').
+Proof.
+  intros F H. induction F as [|a b l l' Rab F IH]; [constructor|].
+  simpl. constructor; [apply H; [left; reflexivity|exact Rab]|]. apply IH. intros. apply H; [right|]; assumption.
+Qed.
+
+Lemma Forall2_map_combine {A B C} (R : A -> B -> Prop) (R' : A -> C -> Prop) (f : A -> B -> C) l l' :
+  Forall2 R l l' -> (forall a b, In a l -> R a b -> R' a (f a b)) ->
+  Forall2 R' l (map (fun p => f (fst p) (snd p)) (combine l l')).
+Proof.
+  intros F H. induction F as [|a b l l' Rab F IH]; [constructor|].
+  simpl. constructor; [apply H; [left; reflexivity|exact Rab]|]. apply IH. intros. apply H; [right|]; assumption.
+Qed.
+
+Lemma Forall2_in_combine {A B} (R : A -> B -> Prop) l l' a b :
+  Forall2 R l l' -> In (a, b) (combine l l') -> R a b.
+Proof.
+  intro F. induction F as [|x y l l' Rxy F IH]; intro I; [destruct I|].
+  simpl in I. destruct I as [E|I]; [injection E as <- <-; exact Rxy|auto].
+Qed.
+
+Lemma Forall2_length' {A B} (R : A -> B -> Prop) l l' : Forall2 R l l' -> length l' = length l.
+Proof. intro F. induction F; simpl; congruence. Qed.
+
+(* routeMessages *)
+Lemma route1_inv inp xs off m :
+  rinv (acx inp xs (m_src m)) (acx inp xs (m_dst m)) m (fst (route1 inp xs off m)).
+Proof.
+  unfold route1, rinv. destruct (same_actor m) eqn:E; cbn [fst].
+  - split; [simpl; lia|]. split; [reflexivity|]. split; [reflexivity|]. discriminate.
+  - split; [simpl; lia|]. split; [reflexivity|]. split; [reflexivity|]. intros _. eexists. reflexivity.
+Qed.
+
+Lemma route_from_inv inp xs ms : forall off,
+  Forall2 (fun m r => rinv (acx inp xs (m_src m)) (acx inp xs (m_dst m)) m r) ms (route_from inp xs off ms).
+Proof.
+  induction ms as [|m t IH]; intro off; [constructor|]. rewrite route_from_cons.
+  constructor; [apply route1_inv|apply IH].
+Qed.
+
+(* adjustRouteEndpoints *)
+Lemma last_cons_ne {A} (x : A) l d : l <> [] -> last (x :: l) d = last l d.
+Proof. destruct l; [congruence|reflexivity]. Qed.
+
+Lemma last_map_last {A} (g : A -> A) l d : l <> [] -> last (map_last g l) d = g (last l d).
+Proof.
+  induction l as [|x t IH]; [congruence|]. intros _. destruct t as [|y t']; [reflexivity|].
+  change (map_last g (x :: y :: t')) with (x :: map_last g (y :: t')).
+  assert (N : map_last g (y :: t') <> []) by (destruct t'; discriminate).
+  destruct (map_last g (y :: t')) eqn:E; [congruence|]. rewrite <- E.
+  change (last (x :: y :: t') d) with (last (y :: t') d). rewrite <- IH by discriminate.
+  rewrite E. reflexivity.
+Qed.
+
+Lemma map_last_length {A} (g : A -> A) l : length (map_last g l) = length l.
+Proof.
+  induction l as [|x t IH]; [reflexivity|]. destruct t as [|y t']; [reflexivity|].
+  change (map_last g (x :: y :: t')) with (x :: map_last g (y :: t')). simpl in *. rewrite IH. reflexivity.
+Qed.
+
+Lemma adjust_route_inv inp xs m r :
+  rinv (acx inp xs (m_src m)) (acx inp xs (m_dst m)) m r -> rinv (X1 inp xs m) (X2 inp xs m) m (adjust_route inp m r).
+Proof.
+  intros [L [H1 [H2 Hz]]]. unfold rinv. rewrite adjust_route_ys.
+  destruct r as [|p [|q t]]; simpl in L; try lia.
+  unfold adjust_route. cbn [map_first].
+  change (map_last (addx (dst_shift inp m)) (addx (src_shift inp m) p :: q :: t))
+    with (addx (src_shift inp m) p :: map_last (addx (dst_shift inp m)) (q :: t)).
+  repeat split.
+  - cbn [length]. rewrite map_last_length. simpl. lia.
+  - unfold hdp in *. cbn [hd addx fst] in *. unfold X1. rewrite H1. reflexivity.
+  - unfold lastp in *.
+    assert (N : map_last (addx (dst_shift inp m)) (q :: t) <> []) by (destruct t; discriminate).
+    rewrite last_cons_ne by exact N.
+    rewrite last_map_last by discriminate. cbn [addx fst].
+    change (last (p :: q :: t) (0, 0)) with (last (q :: t) (0, 0)) in H2. unfold X2. rewrite H2. reflexivity.
+  - exact Hz.
+Qed.
+
+(* adjustGroupLabel *)
+Lemma hd_map {A B} (f : A -> B) l d : hd (f d) (map f l) = f (hd d l).
+Proof. destruct l; reflexivity. Qed.
+
+Lemma move_route_inv op x1 x2 m r : rinv x1 x2 m r -> rinv x1 x2 m (move_route op r).
+Proof.
+  intros [L [H1 [H2 Hz]]]. unfold move_route. destruct op as [t h]. destruct (qlt_b _ _); [|repeat split; auto].
+  assert (N : r <> []) by (destruct r; [simpl in L; lia|discriminate]).
+  repeat split.
+  - rewrite map_length. exact L.
+  - unfold hdp in *. destruct r; [congruence|]. exact H1.
+  - unfold lastp in *. set (f := fun p : pt => (fst p, snd p + h)).
+    assert (E : last (map f r) (0, 0) = f (last r (0, 0))).
+    { clear -N. induction r as [|x t' IH]; [congruence|]. destruct t' as [|y t'']; [reflexivity|].
+      change (map f (x :: y :: t'')) with (f x :: map f (y :: t'')).
+      change (last (f x :: map f (y :: t'')) (0, 0)) with (last (map f (y :: t'')) (0, 0)).
+      rewrite IH by discriminate. reflexivity. }
+    change (fst (last (map f r) (0, 0)) == x2). rewrite E. exact H2.
+  - intro S. destruct (Hz S) as [y E]. exists (y + h). unfold ys in *. rewrite map_map. cbn [snd].
+    destruct r as [|p [|q [|]]]; try discriminate. simpl in E. injection E as E1 E2. simpl. rewrite E1, E2. reflexivity.
+Qed.
+
+Lemma apply_ops_inv {A} (R : A -> list pt -> Prop) ops :
+  (forall op a r, R a r -> R a (move_route op r)) ->
+  forall l rs, Forall2 R l rs -> Forall2 R l (apply_ops ops rs).
+Proof.
+  intro H. induction ops as [|op t IH]; intros l rs F; [exact F|].
+  cbn [apply_ops fold_left]. apply IH. eapply Forall2_map_r; eauto.
+Qed.
+
+Lemma shift_route_inv d x1 x2 m r : rinv x1 x2 m r -> rinv (x1 + d) (x2 + d) m (map (shift_pt d) r).
+Proof.
+  intros [L [H1 [H2 Hz]]].
+  assert (N : r <> []) by (destruct r; [simpl in L; lia|discriminate]).
+  repeat split.
+  - rewrite map_length. exact L.
+  - unfold hdp in *. destruct r; [congruence|]. cbn [map hd shift_pt fst] in *. rewrite H1. reflexivity.
+  - unfold lastp in *.
+    assert (E : last (map (shift_pt d) r) (0, 0) = shift_pt d (last r (0, 0))).
+    { clear -N. induction r as [|x t' IH]; [congruence|]. destruct t' as [|y t'']; [reflexivity|].
+      change (map (shift_pt d) (x :: y :: t'')) with (shift_pt d x :: map (shift_pt d) (y :: t'')).
+      change (last (shift_pt d x :: map (shift_pt d) (y :: t'')) (0, 0)) with (last (map (shift_pt d) (y :: t'')) (0, 0)).
+      rewrite IH by discriminate. reflexivity. }
+    rewrite E. cbn [shift_pt fst]. rewrite H2. reflexivity.
+  - intro S. destruct (Hz S) as [y E]. exists (y + d). unfold ys in *. rewrite map_map. cbn [shift_pt snd].
+    destruct r as [|p [|q [|]]]; try discriminate. simpl in E. injection E as E1 E2. simpl. rewrite E1, E2. reflexivity.
+Qed.
+
+Lemma final_inv inp xs :
+  Forall2 (fun m r => rinv (X1 inp xs m + GROUP_CONTAINER_PADDING) (X2 inp xs m + GROUP_CONTAINER_PADDING) m r)
+          (i_msgs inp) (g_msgs (layout inp xs)).
+Proof.
+  rewrite layout_msgs. eapply Forall2_map_r; [|intros a b _ H; apply shift_route_inv; exact H].
+  unfold final_routes. apply apply_ops_inv; [intros; apply move_route_inv; assumption|].
+  unfold routes1. eapply Forall2_map_combine; [apply route_from_inv|].
+  intros a b _ H. apply adjust_route_inv. exact H.
+Qed.
+
+(* ------------------------------------------------------------------ horizontal messages *)
+Lemma msgs_horizontal inp xs : msgs_horizontal_b inp (layout inp xs) = true.
+Proof.
+  unfold msgs_horizontal_b. assert (F := final_inv inp xs). apply andb_true_intro. split.
+  - apply Nat.eqb_eq. eapply Forall2_length'; eauto.
+  - apply forallb_forall. intros [m r] I. cbn [fst snd].
+    destruct (Forall2_in_combine _ _ _ _ _ F I) as [_ [_ [_ Hz]]].
+    unfold horizontal_b. destruct (same_actor m) eqn:E; [reflexivity|].
+    destruct (Hz eq_refl) as [y Ey]. unfold ys in Ey.
+    destruct r as [|p [|q [|]]]; try discriminate. simpl in Ey. injection Ey as E1 E2.
+    apply close_refl. rewrite E1, E2. reflexivity.
+Qed.
